@@ -656,7 +656,7 @@ func c11GenProfile(w *bufio.Writer, seed int64, tier string, prof string) {
 	r := newRng(seed)
 	cases, maxN, steps := 140, 5, 45
 	if tier == "thorough" {
-		cases, maxN, steps = 2500, 7, 70
+		cases, maxN, steps = 1000, 7, 70
 	}
 	for c := 0; c < cases; c++ {
 		n := 2 + r.intn(maxN-1)
